@@ -33,8 +33,7 @@ Definition simple_init (e : exp) : bool :=
 
 Definition tag_local_init_w (en : env) (ns : list (list N)) (i : nat) (e : exp) (os : list socc) : list socc :=
   if simple_init e then tag_local_init en ns i e os
-  else tag_if (fun o => outer_use en o && name_in (s_name o) (firstn i ns)) CB3
-              (tag_if (fun o => outer_use en o && name_in (s_name o) ns) CB1 os).
+  else tag_if (fun o => outer_use en o && name_in (s_name o) ns) CB1 os.
 
 Fixpoint bw_exp (flv slv : Z) (reg : loc) (e : exp) (en : env) {struct e} : list socc :=
   match e with
